@@ -32,9 +32,11 @@ var callWhitelist = map[string]bool{
 	"tryConnectToN4Peers": true, "Range": true, "handleNewPeers": true,
 	"startHeartBeatMonitor": true, "handleAssociationReleaseRequest": true,
 	"GetAllSessions": true, "hbCancel": true, "DeleteSession": true,
+	"Lock": true, "Unlock": true, "Add": true,
 }
 
-var condWhitelist = map[string]bool{"hbCtxCancel": true, "pConnDone": true, "shutdown": true, "done": true}
+var condWhitelist = map[string]bool{"hbCtxCancel": true, "pConnDone": true, "shutdown": true, "done": true,
+	"newPeersDone": true, "pConnsEnded": true}
 
 type target struct{ key, file, recv, name string }
 
@@ -90,7 +92,8 @@ func callName(c *ast.CallExpr) (short, qual string) {
 		qual = short
 		switch r := f.X.(type) {
 		case *ast.SelectorExpr:
-			if r.Sel.Name == "pConns" || r.Sel.Name == "shutdownOnce" || r.Sel.Name == "node" || r.Sel.Name == "store" {
+			if r.Sel.Name == "pConns" || r.Sel.Name == "shutdownOnce" || r.Sel.Name == "node" || r.Sel.Name == "store" ||
+				r.Sel.Name == "pConnsCreated" || r.Sel.Name == "hbMu" {
 				qual = r.Sel.Name + "." + short
 			}
 		}
@@ -105,8 +108,14 @@ type walker struct{ fset *token.FileSet }
 func callAllowed(c *ast.CallExpr, short, qual string) bool {
 	sel, isSel := c.Fun.(*ast.SelectorExpr)
 	switch short {
-	case "Store", "Delete", "Load", "Range":
+	case "Store", "Delete", "Range":
 		return strings.HasPrefix(qual, "pConns.")
+	case "Load":
+		return strings.HasPrefix(qual, "pConns.") || strings.HasPrefix(qual, "pConnsCreated.")
+	case "Add":
+		return strings.HasPrefix(qual, "pConnsCreated.")
+	case "Lock", "Unlock":
+		return strings.HasPrefix(qual, "hbMu.")
 	case "Stop", "Done":
 		return qual == "node."+short
 	case "Shutdown":
@@ -264,7 +273,15 @@ func (w *walker) stmt(s ast.Stmt) string {
 		return w.expr(x.X, "")
 	case *ast.SendStmt:
 		return join([]string{w.expr(x.Value, ""), "send(" + exprName(x.Chan) + ")"})
+	case *ast.IncDecStmt:
+		if n := exprName(x.X); n == "pConnsEnded" {
+			return "inc(" + n + ")"
+		}
+		return ""
 	case *ast.AssignStmt:
+		if len(x.Lhs) == 1 && len(x.Rhs) == 1 && exprName(x.Lhs[0]) == "newPeersDone" && x.Tok == token.ASSIGN {
+			return "set(newPeersDone," + exprName(x.Rhs[0]) + ")"
+		}
 		parts := []string{}
 		for i, r := range x.Rhs {
 			b := ""
@@ -307,6 +324,9 @@ func (w *walker) stmt(s ast.Stmt) string {
 			return "defer{" + b + "}"
 		}
 		short, _ := callName(x.Call)
+		if short == "close" && len(x.Call.Args) == 1 {
+			return "defer(close:" + exprName(x.Call.Args[0]) + ")"
+		}
 		if callWhitelist[short] {
 			return "defer(" + short + ")"
 		}
@@ -350,7 +370,13 @@ func (w *walker) stmt(s ast.Stmt) string {
 		return join([]string{init, cond, out})
 	case *ast.ForStmt:
 		body := w.block(x.Body.List)
-		return join([]string{w.stmt(x.Init), "loop{" + join([]string{w.expr(x.Cond, ""), body, w.stmt(x.Post)}) + "}"})
+		head := "loop"
+		if x.Cond != nil {
+			if c := condText(x.Cond); c != "" {
+				head += "(" + c + ")"
+			}
+		}
+		return join([]string{w.stmt(x.Init), head + "{" + join([]string{w.expr(x.Cond, ""), body, w.stmt(x.Post)}) + "}"})
 	case *ast.RangeStmt:
 		body := w.block(x.Body.List)
 		src := w.expr(x.X, "")
